@@ -60,3 +60,13 @@ chk("C19", "exploration",
     "All FASTA files from the product of 1-3 records x line width 1-4 x sequence lengths around the line width x LF/CRLF x final newline x description x blank line between records; for each: NewIndex against the true layout, index write/read/write identity, and every (name,start,end) with every buffer size in {1,2,3,7,64} through File.SeqRange/Seq read loops with a progress horizon.",
     "Generator and expected layout live in cmd/vseq/c19.go (independent of the library). Line widths > 4 and more than 3 records are not covered.",
     "bounded-exhaustive enumeration of small FASTA files x all ranges x buffer sizes", "DESIGN.md §3 C19", "enum (E3)")
+
+chk("C10", "fault_enumeration",
+    "Every truncation length and every single-byte substitution (9 values per position in quick, all 255 in thorough) of seven small closed streams (BGZF from the library writer and from an independent encoder incl. an empty block; BAM from bam.Writer and re-blocked so that records end at, span and straddle block ends and a block ends right after a length prefix), plus full 65280-byte blocks mutated at every position near member boundaries and every 61st (7th) elsewhere; rd 1 and 2. Truncation must yield a prefix then an error, a clean end only at a member (and record) boundary with HasEOF false; substitution must fail or return exactly the original.",
+    "Member and record boundaries come from refimpl.ParseStream and a BAM length walker; the HasEOF clause is skipped when the prefix itself ends in an empty member (byte-identical to the marker by the format). Larger streams are mutated sparsely as stated.",
+    "exhaustive crash-point (truncation) and single-byte corruption enumeration", "DESIGN.md §3 C10", "enum (E3)")
+
+chk("C13", "exploration",
+    "BAM: one record stream re-blocked by an independent BGZF encoder at every set of <=2 cut positions around record boundaries (incl. inside length prefixes, with optional empty blocks); for every file every list of <=2 (3) record-range chunks in every order through bam.Iterator, rd 1 and 2. ChunkReader: eight block layouts, every ascending non-overlapping list of <=2 (3) chunks over ALL virtual offsets (both spellings of block ends, zero-length chunks), four buffer sizes; oracle = flat bytes, then io.EOF within a progress horizon.",
+    "BAM stream from refimpl's BAM encoder, files from refimpl's BGZF encoder; record sizes are small (no record larger than a block in quick).",
+    "bounded-exhaustive enumeration of block layouts x chunk lists x buffer sizes", "DESIGN.md §3 C13", "enum (E3)")
